@@ -277,7 +277,7 @@ class Comparer:
             cn = env.cn(tgt.id)
             sa = C.single_atom(val) if C.is_poly(val) else val
             if sa is not None and sa[0] == 'alloc':
-                reg.allocs[cn] = (sa[1], sa[2], st)
+                reg.allocs[cn] = (sa[1], sa[2], st, sa[3] if len(sa) > 3 else ())
                 env.lens[('n', cn)] = sa[2]
                 env.unset(tgt.id)
                 env.versions.pop(cn, None)
@@ -467,10 +467,24 @@ class Comparer:
                     self.mism('effects', 'effectful call differs', nx, ny, self.norm(x, fa), self.norm(y, fb), ctx)
         # allocations
         for cn in sorted(set(ra.allocs) & set(rb.allocs)):
-            ka, sa, na = ra.allocs[cn]
-            kb, sb, nb = rb.allocs[cn]
+            ka, sa, na, kwa = ra.allocs[cn]
+            kb, sb, nb, kwb = rb.allocs[cn]
             if not self.eq(sa, sb, fa, fb):
                 self.mism('alloc', f'allocated size of {cn} differs', na, nb, sa, sb, ctx)
+            # element type / layout keywords: no keyword, dtype=float, np.float64, np.double all mean float64
+            def _kw(kws):
+                out = []
+                for k_, v_ in kws:
+                    sv = C.show(v_)
+                    if k_ == 'dtype' and sv in ('float', 'np.float64', 'np.double', 'numpy.float64', 'DTYPE'):
+                        continue
+                    out.append((k_, v_))
+                return tuple(out)
+            qa, qb = _kw(kwa), _kw(kwb)
+            if len(qa) != len(qb) or any(x[0] != y[0] or not self.eq(x[1], y[1], fa, fb) for x, y in zip(qa, qb)):
+                self.mism('alloc', f'element type / keywords of the allocation of {cn} differ', na, nb,
+                          ', '.join(f"{k_}={C.show(v_)}" for k_, v_ in qa) or 'float64 (default)',
+                          ', '.join(f"{k_}={C.show(v_)}" for k_, v_ in qb) or 'float64 (default)', ctx)
             if ka != kb:
                 self.info.append(f"{self.title}: allocation kind of {cn}: np.{ka} vs np.{kb} "
                                  f"({self.loc(self.a, na)} / {self.loc(self.b, nb)})")
